@@ -183,4 +183,30 @@ theorem C11_define_arm (C : Cfg) (recI) (recU) (inp : Input) (s path : Bytes) (i
     simp only [hp, Bool.not_true, Bool.false_eq_true, if_false, pushLoc_defines]
     unfold WState.skipPush; split <;> rfl
 
+
+/-- **`include splices the file with defines flowing in and out**: whenever the include arm succeeds, the recursive call was made with the
+    define table in force at the directive and with include_depth + 1, its output is appended (`merge`) at this point, and the table it
+    returns replaces the current one -/
+theorem C10_include_splices (C : Cfg) (recI) (recU) (inp : Input) (s path : Bytes) (ii sc : Bool) (rd id : Nat) (w w' : WState) (x : Tree)
+    (h : armInclude C recI recU inp s path ii sc rd id w x = .ok w') :
+    (w'.out = w.out ∧ w'.defines = w.defines) ∨
+    ∃ p inc nd, recI p w.defines sc false rd (id + 1) = .ok (inc, nd) ∧ w'.out = w.out.merge inc ∧ w'.defines = nd := by
+  unfold armInclude at h
+  dsimp only at h
+  repeat' split at h
+  all_goals first
+    | (cases h; done)
+    | skip
+  all_goals (injection h with h; subst h)
+  all_goals first
+    | (left; constructor <;> simp [skipPush_out, skipPushAll_out, skipPush_defines, skipPushAll_defines] <;> done)
+    | (right
+       rename_i heq
+       have e1 : ∀ (a : WState) (ts : List Tree), (skipPushAll a ts).defines = a.defines := skipPushAll_defines
+       have e2 : ∀ (a : WState) (t : Tree), (a.skipPush t).defines = a.defines := skipPush_defines
+       rw [e1] at heq
+       dsimp only at heq
+       rw [e2] at heq
+       exact ⟨_, _, _, heq, by simp only [skipPush_out, skipPushAll_out], rfl⟩)
+
 end Sv
